@@ -31,9 +31,9 @@ Past(s) == s @@ [past |-> TRUE]
 PastAll(q) == [i \in 1..Len(q) |-> Past(q[i])]
 
 Keyed(j, netfnRsp, cmd, cc, body) ==
-  [React0 EXCEPT !.datagrams = << Dg(SessPacketWith(P, 192, Var("sidM"), LE32s(j), MsgRsp(netfnRsp, cmd, cc, body), [i \in 1..16 |-> (i * 3 + j) % 256], K1(P), K2(P)),
+  [React0 EXCEPT !.datagrams = << Dg(SessPacketWith(P, 192, Var("sidM"), LE32s(j), MsgRspE(EchoWith(K2(P)), netfnRsp, 0, cmd, cc, body), [i \in 1..16 |-> (i * 3 + j) % 256], K1(P), K2(P)),
                                      [kind |-> "past"]) >>]
-Plain(netfnRsp, cmd, cc, body) == [React0 EXCEPT !.datagrams = << Dg(NullWrapper(0, MsgRsp(netfnRsp, cmd, cc, body)), [kind |-> "past"]) >>]
+Plain(netfnRsp, cmd, cc, body) == [React0 EXCEPT !.datagrams = << Dg(NullWrapper(0, MsgRspE(EchoN, netfnRsp, 0, cmd, cc, body)), [kind |-> "past"]) >>]
 Cmd(name, tg) == [k |-> "call", api |-> "Cmd", cmd |-> name, label |-> "past", target |-> tg]
 Raw(tg, netfn, cmd, body) == [k |-> "call", api |-> "Raw", label |-> "past", target |-> tg, args |-> [netfn |-> netfn, cmd |-> cmd, lun |-> 0, body |-> body]]
 Open(S) == CallNewV2Session(S) @@ [label |-> "past"]
